@@ -13,7 +13,8 @@ NAMESPACE = 'KdVerif.C06'
 TRUSTED = ['Model/Reader + Model/Construct + Model/ContainerV2/V3 as models of BytesIO / construct / kd_buf_parser.py, tied by '
            'running EVERY cut offset of a corpus of generated v2 and v3 dumps (thorough) / a stratified subset (quick) through '
            'the real parser under a counting reader: outcome kind, number and checksum of events, read calls, bytes returned and '
-           'bytes requested must all agree with the model',
+           'bytes requested must all agree with the model; dumps longer than the reader\'s blocks, cut at the block edges (trunc-blocks, sizes '
+           'from tools/kdv/readprobe.py), are judged on the code alone',
            'Model/Pipeline (filter/map stages, print_with_count) tied by sections pipeline and pwc',
            'from_kd_buf rejects anything but 64 bytes (C01.decode_rejects_other_lengths)']
 from .. import rdir as _rdir  # noqa: E402
@@ -50,33 +51,50 @@ def record_ends(c):
     return c.get('rec_ends')
 
 
+def judge_cut(k, total, res, full_keys, ncomplete=None, expected=None, data=None):
+    """The property on ONE cut, on the implementation's run alone: terminates within the read budget, reads linearly,
+    delivers a prefix of the complete dump's events compared on ALL fields, and nothing fabricated: never more events than
+    complete records inside the cut, every event the decoding of its record (`expected`, generated dumps) / of 64 consecutive
+    bytes of the cut input in ascending order (`data`, any byte string)."""
+    if isinstance(res.err, ct.Watchdog):
+        return ('trunc:hang', 'cut at %d of %d: the parser does not return (watchdog)' % (k, total))
+    if isinstance(res.err, ct.Budget):
+        return ('trunc:read-budget', 'cut at %d of %d: more than 10*len+1000 read work' % (k, total))
+    if res.rd.calls + res.rd.got > READ_A * k + READ_B:
+        return ('trunc:reads-not-linear', 'cut at %d: %d calls + %d bytes returned > %d*len+%d'
+                % (k, res.rd.calls, res.rd.got, READ_A, READ_B))
+    ev = [ct.ev_key(e) for e in res.events]
+    if ev != full_keys[:len(ev)]:
+        i = next((i for i, (a, b) in enumerate(zip(ev, full_keys)) if a != b), min(len(ev), len(full_keys)))
+        return ('trunc:not-a-prefix', 'cut at %d of %d: events are not a prefix of the complete dump\'s events '
+                                      '(%d vs %d events, first difference at event %d)' % (k, total, len(ev), len(full_keys), i))
+    if ncomplete is not None and len(ev) > ncomplete:
+        return ('trunc:fabricated', 'cut at %d: %d events but only %d complete records inside the cut' % (k, len(ev), ncomplete))
+    if expected is not None and ev != expected[:len(ev)]:
+        i = next(i for i, (a, b) in enumerate(zip(ev, expected)) if a != b)
+        return ('trunc:fabricated', 'cut at %d: event %d is not the decoding of record %d of the dump' % (k, i, i))
+    if data is not None:
+        bad = ct.not_from_input(res.events, data[:k])
+        if bad:
+            return ('trunc:fabricated', 'cut at %d: event %d: %s' % (k, bad[0], bad[1]))
+    return None
+
+
 def oracle_trunc(c, got):
     """The property on the implementation alone: termination within the read budget, linear reading, prefix of the
-    full dump's events, nothing fabricated (never more events than complete records inside the cut)."""
+    full dump's events (all fields), nothing fabricated."""
     data = bytes.fromhex(c['hex'])
     full = ct.run_impl(data, budget=10 * len(data) + 1000)
     if isinstance(full.err, (ct.Budget, ct.Watchdog)):
         return ('trunc:no-termination', 'the complete dump does not terminate within the read budget: %r' % full.err)
-    full_ev = [ct.show_ev(e) for e in full.events]
+    full_keys = [ct.ev_key(e) for e in full.events]
     ends = record_ends(c)
+    expected = None if ends is None else [ct.dec_rec(data[e - 64:e]) for e in ends]
     for k in c['ks']:
         res = ct.run_impl(data[:k], budget=10 * k + 1000, watchdog=20)
-        if isinstance(res.err, ct.Watchdog):
-            return ('trunc:hang', 'cut at %d of %d: the parser does not return (watchdog)' % (k, len(data)))
-        if isinstance(res.err, ct.Budget):
-            return ('trunc:read-budget', 'cut at %d of %d: more than 10*len+1000 read work' % (k, len(data)))
-        if res.rd.calls + res.rd.got > READ_A * k + READ_B:
-            return ('trunc:reads-not-linear', 'cut at %d: %d calls + %d bytes returned > %d*len+%d'
-                    % (k, res.rd.calls, res.rd.got, READ_A, READ_B))
-        ev = [ct.show_ev(e) for e in res.events]
-        if ev != full_ev[:len(ev)]:
-            return ('trunc:not-a-prefix', 'cut at %d of %d: events are not a prefix of the complete dump\'s events '
-                                          '(%d vs %d events)' % (k, len(data), len(ev), len(full_ev)))
-        if ends is not None and len(ev) > sum(1 for e in ends if e <= k):
-            return ('trunc:fabricated', 'cut at %d: %d events but only %d complete records inside the cut'
-                    % (k, len(ev), sum(1 for e in ends if e <= k)))
-        for e in res.events:          # every event is the decoding of 64 consecutive input bytes
-            pass
+        r = judge_cut(k, len(data), res, full_keys, None if ends is None else sum(1 for e in ends if e <= k), expected, data)
+        if r:
+            return r
     return None
 
 
@@ -196,6 +214,75 @@ def garbage_case_set(rng, tier):
         ks = sorted(set([len(data)] + [rng.randrange(len(data) + 1) for _ in range(10 if tier == 'quick' else 30)]))
         cases.append({'hex': data.hex(), 'ks': ks, 'plists': pl, 'kind': 'g%d' % kind})
     return cases
+
+
+# ------------------------------------------------------------------------------------------- cuts at the reader's block edges
+
+EDGE_D = [-63, -33, -32, -8, -1, 0, 1, 7, 8, 31, 33, 63, 64, 65, 64 * 2 + 9, 64 * 5 + 40]
+
+
+def edge_cuts(rng, bases, lo, length, extra=6):
+    """cut offsets around every base (a block edge): +-1..63, the edge itself, a few records behind it; random non-aligned
+    offsets behind the first edge; the end of the dump and offsets just in front of it."""
+    ks = {length, length - 1, length - 37, length - 64 - 5}
+    for b in bases:
+        for d in EDGE_D:
+            ks.add(b + d)
+    first = min([b for b in bases if lo < b < length], default=None)
+    if first is not None:
+        for _ in range(extra):
+            ks.add(rng.randrange(first, length + 1) | rng.randrange(1, 64))
+    return sorted(k for k in ks if lo <= k <= length)
+
+
+def block_case_set(rng, tier, sizes):
+    """For every block size B the reader may work with: version-2 and version-3 dumps whose record area is longer than 2B
+    (B above 2 MiB: longer than B), cut around the block edges counted from the start of the record area and from the start
+    of the file; a version-3 dump whose stackshot filler is longer than B, cut around the edge inside the filler."""
+    cases = []
+    for B, origin in sizes:
+        span = 2 * B if B <= (2 << 20) else B
+        n = span // 64 + 9
+        for v in (2, 3):
+            seed = rng.randrange(1 << 30)
+            if v == 2:
+                rc = {'v': 2, 'seed': seed, 'threads': rng.randrange(0, 4), 'pad': rng.choice([0, 0, 3, 64]), 'n': n}
+            else:
+                rc = {'v': 3, 'seed': seed, 'threads': rng.randrange(0, 4), 'trail': rng.choice([0, 5]),
+                      'filler': {'len': rng.randrange(0, 40), 'seed': seed}, 'gap1': {'len': rng.randrange(0, 9), 'seed': seed},
+                      'chunks': [{'gap': {'len': rng.randrange(0, 9), 'seed': seed}, 'n': n, 'extra': rng.choice([0, 0, 17])},
+                                 {'gap': {'len': 2, 'seed': seed}, 'n': 3, 'extra': 0}]}
+            data, info = ct.big_bytes(rc)
+            start = info['areas'][0][0]
+            bases = [start + B, start + 2 * B, B, 2 * B]
+            ks = edge_cuts(rng, bases, start, len(data))
+            if B > (256 << 10) and tier != 'quick':      # the big ones: every second edge offset
+                ks = [k for i, k in enumerate(ks) if i % 2 == 0 or k % 64 in (1, 63)]
+            cases.append({'rc': rc, 'ks': ks, 'B': B, 'origin': origin, 'kind': 'v%d-records' % v})
+        seed = rng.randrange(1 << 30)
+        rc = {'v': 3, 'seed': seed, 'threads': 2, 'filler': {'len': B + 70, 'style': rng.choice(['hi', 'zero', 'near']), 'seed': seed},
+              'gap1': {'len': 3, 'seed': seed}, 'chunks': [{'gap': {'len': 0}, 'n': 3, 'extra': 0}]}
+        data, info = ct.big_bytes(rc)
+        ks = edge_cuts(rng, [info['scan0'] + B, B], info['scan0'], len(data), extra=2)
+        cases.append({'rc': rc, 'ks': ks, 'B': B, 'origin': origin, 'kind': 'v3-filler'})
+    return cases
+
+
+def oracle_blocks(c):
+    data, info = ct.big_bytes(c['rc'])
+    full = ct.run_impl(data, budget=10 * len(data) + 1000, watchdog=120)
+    if isinstance(full.err, (ct.Budget, ct.Watchdog)):
+        return ('trunc:no-termination', 'the complete dump (%d bytes) does not terminate within the read budget: %r'
+                % (len(data), full.err))
+    full_keys = [ct.ev_key(e) for e in full.events]
+    expected, _ = ct.recipe_expected(info)
+    for k in c['ks']:
+        res = ct.run_impl(data[:k], budget=10 * k + 1000, watchdog=120)
+        r = judge_cut(k, len(data), res, full_keys, ct.complete_records(info, k), expected)
+        if r:
+            return r[0], r[1] + ' [records start at %d, block size aimed at %d (%s)]' % (
+                info['areas'][0][0], c['B'], c.get('origin', '?')), dict(c, ks=[k])
+    return None
 
 
 # ------------------------------------------------------------------------------------------- pipeline / print_with_count
@@ -340,6 +427,21 @@ def correspondence(rep, rng, tier):
                 kind_fn=lambda c, got: 'batch',
                 rule='the same for generated v3 dumps (1..5 chunks, scanner gaps with near-miss tag prefixes, with and '
                      'without metadata/log blocks)')
+    from .. import readprobe
+    sizes = readprobe.block_sizes(tier, version=None)
+    rep.notes.append(readprobe.describe(tier))
+    core.run_code_section(rep, 'trunc-blocks', block_case_set(rng, tier, sizes), oracle_blocks,
+                          kind_fn=lambda c: c['kind'] + ':' + c['origin'].split(':')[0],
+                          rule='code-only section (inputs too long for a protocol line): for every block size B the reader may '
+                               'work with — request sizes above one record recorded from the real reader on small dumps '
+                               '(tools/kdv/readprobe.py), integer constants of the reader\'s source and their products with 64, and '
+                               'in the thorough tier / on a changed source the powers of two 2^9..2^20 — a version-2 and a '
+                               'version-3 dump with more than 2B (B > 2 MiB: B) bytes of records, cut at the block edges +-1..63 '
+                               'counted from the start of the record area and of the file, at non-aligned offsets behind B and 2B '
+                               'and in front of the end, and a version-3 dump cut inside a stackshot filler longer than B; per cut: '
+                               'terminates within the read budget, calls+got <= 5*len+67, ALL fields of the events = those of a '
+                               'prefix of the whole dump\'s events = the decodings of the records at the grammar\'s offsets, never '
+                               'more events than complete records inside the cut')
     gb = garbage_case_set(rng, tier)
     run_section(rep, 'trunc-any', gb, line_trunc, impl_trunc, oracle_fn=oracle_trunc,
                 kind_fn=lambda c, got: c['kind'],
@@ -393,6 +495,20 @@ def replay(path):
     if sec == 'end-to-end':
         from .. import pipeline as _PL
         return _PL.replay_e2e(case, 'C06', path)
+    if sec == 'trunc-blocks':
+        data, info = ct.big_bytes(case['rc'])
+        print('recipe:', case['rc'], '-> %d bytes, records at %s, cuts %s' % (len(data), info['areas'], case['ks']))
+        for k in case['ks']:
+            res = ct.run_impl(data[:k], budget=10 * k + 1000, watchdog=120)
+            print('impl : cut %d: %s, %d events (%d complete records inside the cut), %s'
+                  % (k, ct.show_err(res.err), len(res.events), ct.complete_records(info, k), ct.show_reads(res.rd)))
+        res = oracle_blocks(case)
+        if res:
+            print('failing:', res[:2])
+            print(f'VIOLATION property=C06 replay={path}')
+            return 1
+        print('no violation on this input')
+        return 0
     if sec == 'pwc':
         got, model, res = impl_pwc(case), core.drive(['pwc %d %d' % (case['count'], case['n'])])[0], None
         res = oracle_pwc(case, got)
